@@ -325,7 +325,11 @@ def run_case(case):
         return {"key": key0, "cls": "inadmissible(P_trace)", "nontrivial": False,
                 "obs": {"why": ref["p_trace_why"], "spec": spec}, "viol": [], "mon": mon}
     mu = [x for x in ref.get("mu_ends", []) if np.isfinite(x)]
-    if mu and (max(mu) > 60 or min(mu) < 2):
+    me = ref.get("mu_ends", [np.nan] * 4)
+    # lower table ends: c_s^2 < 1/60 means the enthalpy all but vanishes there; upper ends
+    # next to a spinodal legitimately reach mu ~ 100 (c_s^2 -> 0 at the spinodal)
+    if mu and (max([x for x in (me[0], me[2]) if np.isfinite(x)] or [0]) > 60
+               or max(mu) > 300 or min(mu) < 2):
         return {"key": key0, "cls": "inadmissible(P_eos)", "nontrivial": False,
                 "obs": {"mu_ends": ref.get("mu_ends"), "spec": spec}, "viol": [], "mon": mon}
     mg = ref.get("margin", {})
